@@ -327,13 +327,25 @@ impl Cfg {
     // TODO move to a more appropriate place
     // TODO make better, what even is this?
     /// Does the code of a function read `item` before it gives it a new value?
-    /// (A register that only passes through the function is not read by it.)
-    fn reads_before_writing(entry: &Rc<CfgNode>, item: Register) -> bool {
+    /// (A register that only passes through the function, or through a
+    /// function it calls, is not read by it.)
+    fn reads_before_writing(
+        &self,
+        function: &Rc<Function>,
+        item: Register,
+        asked: &mut Vec<Rc<Function>>,
+    ) -> bool {
+        // (a function that calls itself: the outer question decides)
+        if asked.iter().any(|f| Rc::ptr_eq(f, function)) {
+            return false;
+        }
+        asked.push(Rc::clone(function));
+        let entry = function.entry();
         let mut queue = VecDeque::new();
         queue.extend(in_source_order(&entry.nexts()));
         #[allow(clippy::mutable_key_type)]
         let mut visited = HashSet::new();
-        visited.insert(Rc::clone(entry));
+        visited.insert(Rc::clone(&entry));
         while let Some(next) = queue.pop_front() {
             if !visited.insert(Rc::clone(&next)) {
                 continue;
@@ -341,10 +353,27 @@ impl Cfg {
             if next.gen_reg().contains(&item) {
                 return true;
             }
-            // A call or an ecall inside the function that takes the register
-            // as an argument reads it as well
-            if (next.calls_to().is_some() || next.is_ecall()) && next.live_in().contains(&item) {
-                return true;
+            if next.live_in().contains(&item) {
+                // An ecall that takes the register as an argument reads it
+                if next.is_ecall() {
+                    return true;
+                }
+                // ... and so does a call whose callee reads it; through a
+                // callee that hands it on, the walk goes on behind the call
+                if next.calls_to().is_some() {
+                    match next.calls_to_from_cfg(self) {
+                        Some((inner, _)) => {
+                            if self.reads_before_writing(&inner, item, asked) {
+                                return true;
+                            }
+                            if inner.exit().live_in().contains(&item) {
+                                queue.extend(in_source_order(&next.nexts()));
+                            }
+                            continue;
+                        }
+                        None => return true,
+                    }
+                }
             }
             if next.kill_reg().contains(&item) || next.is_ecall() || next.is_return() {
                 continue;
@@ -399,7 +428,7 @@ impl Cfg {
                 // behind the call is the place, the walk goes on there
                 if let Some((func, _)) = next.calls_to_from_cfg(self) {
                     if next.calls_to().is_some()
-                        && !Self::reads_before_writing(&func.entry(), item)
+                        && !self.reads_before_writing(&func, item, &mut Vec::new())
                     {
                         if func.exit().live_in().contains(&item) {
                             queue.extend(in_source_order(&next.nexts()));
